@@ -728,6 +728,6 @@ def TRUNC(
     if num_digits == 0:
         return math.trunc(number)
 
-    num_digits = int(num_digits)
-
-    return math.trunc(number * 10**num_digits) / 10**num_digits
+    # Truncate the decimal representation: number * 10**num_digits is
+    # inexact in binary (1.13 * 100 == 112.99999999999999).
+    return _round(number, num_digits, _rounding=decimal.ROUND_DOWN)
